@@ -30,7 +30,8 @@ LEVEL_ASSUMPTIONS = [
     "private collection lists are read (read-only) through their mangled "
     "names; if they are renamed the ghost read falls back to "
     "get_differentials() on a probe"]
-REQUIRED = {"histories": 20, "events_checked": 300, "mode_switches": 40,
+REQUIRED = {"surrogate_after_run_probes": 3, "surrogate_runs_stopped_during_model_phase": 1,
+            "histories": 20, "events_checked": 300, "mode_switches": 40,
             "raw_evaluates_after_model_mode": 20, "failure_values_1e200": 5,
             "per_case_j_recomputed": 100, "surrogate_histories": 1,
             "collection_growth_checked": 100,
@@ -482,6 +483,9 @@ def random_history(ctx, rng):
     return case
 
 
+SURR: dict = {}
+
+
 def surrogate_history(ctx, rng):
     """The real SurrogateOptimizer with tiny budgets, recorder attached."""
     from moptipy.api.execution import Execution
@@ -563,7 +567,34 @@ def surrogate_history(ctx, rng):
                  "controller_training_algorithm":
                      lambda v: RandomSampling(Op0Uniform(v))}
         ctx.count("surrogate_runs_with_fancy_logs")
-    algo = SurrogateOptimizer(inst, space, obj, fes_for_warmup=warm,
+    # every third run is stopped from outside (a time limit, Ctrl-C or an
+    # external terminate()) while the optimizer works on the surrogate model
+    holder: dict = {}
+    SURR["n"] = SURR.get("n", 0) + 1
+    stop_outside = SURR["n"] % 3 == 1      # the first run of every shard
+    so_class = SurrogateOptimizer
+    if stop_outside:
+        from moptipy.algorithms.random_sampling import RandomSampling
+        from moptipy.operators.vectors.op0_uniform import Op0Uniform
+
+        class StopsOuter(RandomSampling):
+            def solve(self, process):
+                super().solve(process)
+                holder["p"].terminate()
+                holder["stopped"] = True
+
+        class Capturing(SurrogateOptimizer):
+            def solve(self, process):
+                holder["p"] = process
+                super().solve(process)
+        so_class = Capturing
+        extra = {**extra, "controller_training_algorithm":
+                 lambda v: StopsOuter(Op0Uniform(v))}
+        if "model_training_algorithm" not in extra:
+            extra["model_training_algorithm"] = \
+                lambda v: RandomSampling(Op0Uniform(v))
+        total += 3
+    algo = so_class(inst, space, obj, fes_for_warmup=warm,
                               fes_for_training=int(rng.integers(4, 12)),
                               fes_per_model_run=int(rng.integers(3, 8)),
                               **extra)
@@ -637,6 +668,30 @@ def surrogate_history(ctx, rng):
             ctx.violation("collection-changed-outside-raw-evaluate",
                           "model-mode evaluate changed the data", case)
     raw_vals = [e[3] for e in log if e[0] == "evaluate" and e[1] == "raw"]
+    if stop_outside and holder.get("stopped"):
+        ctx.count("surrogate_runs_stopped_during_model_phase")
+    # what the run leaves behind: after initialize() the objective judges on
+    # the real system again and collects from scratch
+    xa = np.array(rng.uniform(-1.0, 1.0, space.dimension))
+    n_log = len(log)
+    obj.initialize()
+    g0 = ghost(obj)
+    va = obj.evaluate(xa)
+    wa = ref.value("raw", None, xa)
+    rr = ref.raw_rows(xa)
+    g1 = ghost(obj)
+    ctx.count("surrogate_after_run_probes")
+    del log[n_log:]
+    if not (va == wa) or (g0 is not None and g0[0] != 0) or (
+            rr is not None and g1 is not None and g1[0] != rr[0]):
+        ctx.violation(
+            "objective-left-in-model-mode-after-run",
+            f"after the surrogate run"
+            f"{' (stopped from outside during the model phase)' if stop_outside else ''}"
+            f": initialize() then evaluate(x) gives {va!r} with "
+            f"{g0[0] if g0 else None}->{g1[0] if g1 else None} collected "
+            f"rows; a fresh objective gives {wa!r} and collects "
+            f"{rr[0] if rr else None}", case)
     if raw_inside != main_fes:
         ctx.violation("real-system-evaluations-differ-from-consumed-fes",
                       f"{raw_inside} evaluations happened in real-system "
